@@ -143,6 +143,12 @@ def cert_case(args):
         opts[f] = True
     if rng.random() < .4:
         opts['--canonicalize-roles'] = True
+    elif rng.random() < .6:
+        # the general certificate: the same with --rearrange and / or --make-variables (no --canonicalize-roles)
+        if rng.random() < .7:
+            opts['rearrange'] = rng.choice(REARRANGE)
+        if rng.random() < .6:
+            opts['make_variables'] = rng.choice(oracle.FORMATS)
     opts['indent'] = rng.choice(oracle.INDENTS)
     if rng.random() < .3:
         opts['compact'] = True
@@ -176,6 +182,15 @@ def cert_case(args):
                 # the same classification as the oracle in harness/c20.py: the two known findings, else a new failure
                 model = oracle.get_model(opts, models.MINI_AMR if opts.get('model') else None)
                 key = oracle.classify_non_idempotent(opts, [stream], out1, model)
+                if key == 'idempotence' and opts.get('make_variables'):
+                    # N11 / C10's proviso: a constant spelled like a new variable name (detected by the reference pipeline)
+                    oracle.COLLISION[0] = False
+                    try:
+                        common.timed(oracle.reference_pipeline, [stream], opts, model, seconds=20)
+                    except Exception:      # noqa
+                        pass
+                    if oracle.COLLISION[0]:
+                        key = 'proviso:constant-spelled-like-a-new-variable'
             impl = impl + (key,)
         except common.Timeout:
             impl = ('hang',)
@@ -201,10 +216,14 @@ def certificate_stream(chk):
         if mkey not in wires:
             wires[mkey] = models.wire_model(table_of(o))
         requests.append([2, wire_opts(o, wires[mkey], [r['stream']]), common.e_str(r['stream'])])
-    answers = common.run_driver('cli', requests, shard=100)
+    answers = common.run_driver('cert', requests, shard=100)
     for r, a in zip(res, answers):
         chk.corr_cases += 1
         case = {'opts': r['opts'], 'mode': 'stdin', 'streams': [r['stream']]}
+        if a != [-3]:
+            chk.stat('cert:by-first-certificate' if a[0] else 'cert:by-general-certificate' if a[1] else 'cert:by-none')
+            r['both'] = a
+            a = 1 if (a[0] or a[1]) else 0
         impl = r['impl']
         if impl[0] != 'exit' or impl[2] != 0:
             chk.stat('cert:first-pass-fails')
@@ -219,14 +238,17 @@ def certificate_stream(chk):
                              dict(case, first=impl[1], second=impl[3]), [impl[3], impl[4]], [impl[1], impl[2]])
         elif a == 0:
             chk.stat('cert:not-certified-' + ('but-idempotent' if same else 'and-not-idempotent'))
-            if not same:
+            if not same and impl[5].startswith('proviso:'):
+                chk.stat('cert:skipped-' + impl[5])
+            elif not same:
                 chk.fail(impl[5], 'feeding the output back with the same options changes it (reify option family, not certified)',
                          dict(case, first=impl[1], second=impl[3]))
         else:
             chk.stat('cert:format-outside-model')
     # in-kernel cross-check of the extracted certificate (vm_compute on the same term) on a small sample
-    sample = [(r, a) for r, a in zip(res, answers)
-              if not r['opts'].get('model') and not r['opts'].get('noop') and a in (0, 1) and len(r['stream']) < 400
+    sample = [(r, r['both']) for r in res
+              if not r['opts'].get('model') and not r['opts'].get('noop') and 'both' in r and len(r['stream']) < 400
+              and not r['opts'].get('rearrange') and not r['opts'].get('make_variables')
               and all(ord(c) < 0x100 for c in r['stream'])][:10]
 
     def coq_bool(x):
@@ -239,11 +261,12 @@ def certificate_stream(chk):
             coq_bool(o.get('--dereify-edges')), coq_bool(o.get('--reify-attributes')),
             '(Some (%d)%%Z)' % ind[0] if ind else 'None', coq_bool(o.get('compact'))))
     if sample:
-        exprs = ['idempotence_certificate %s [%s]%%N' % (coq_opts(r['opts']), ';'.join(str(ord(c)) for c in r['stream'])) for r, _ in sample]
-        outs = common.run_in_kernel('C20c', 'From PM Require Import Spec.Idle Gen.AmrTable.', exprs)
+        exprs = ['(fun s => (idempotence_certificate %s s, general_certificate %s s)) [%s]%%N' % (
+            coq_opts(r['opts']), coq_opts(r['opts']), ';'.join(str(ord(c)) for c in r['stream'])) for r, _ in sample]
+        outs = common.run_in_kernel('C20c', 'From PM Require Import Spec.Idle Proofs.IdleGen Gen.AmrTable.', exprs)
         for (r, a), k in zip(sample, outs):
             chk.corr_cases += 1
-            if k.strip() != ('true' if a == 1 else 'false'):
+            if k.replace(' ', '') != '(%s,%s)' % ('true' if a[0] else 'false', 'true' if a[1] else 'false'):
                 chk.mismatch('the extracted idempotence_certificate differs from its evaluation in the kernel',
                              {'opts': r['opts'], 'streams': [r['stream']]}, a, k)
         chk.stat('cert:in-kernel-cross-checks', len(sample))
